@@ -56,26 +56,44 @@ def cond_tests(f, n):
 
 
 def chain(f):
-    """the else-if dispatch chain of parse(): [(tests, then-node)] + final else"""
-    first = None
+    """the dispatch of parse(): [(tests, then-node, if-node)] + final else. An else-if chain, or several such chains in
+    sequence where every branch of an earlier chain leaves the iteration (return / continue), which is the same decision list"""
+    firsts = []
     for n in f.walk():
         if n["k"] == "IfStmt" and cond_tests(f, f.node(n.get("cond"))) is not None:
             par = f.nodes.get(f.parent.get(n["id"]))
-            if par is None or par["k"] != "IfStmt":
-                first = n
-                break
+            if par is None or par["k"] != "IfStmt" or par.get("else") != n["id"]:
+                firsts.append(n)
+
+    def leaves(n):
+        if n is None:
+            return False
+        if n["k"] in ("ReturnStmt", "ContinueStmt"):
+            return True
+        if n["k"] == "CompoundStmt" and n.get("c"):
+            return leaves(n["c"][-1])
+        return False
     out = []
-    n = first
     final_else = None
-    while n is not None and n["k"] == "IfStmt":
-        t = cond_tests(f, f.node(n.get("cond")))
-        if t is None:
-            break
-        out.append((t, f.node(n.get("then")), n))
-        e = f.node(n.get("else"))
-        if e is None or e["k"] != "IfStmt":
-            final_else = e
-        n = e
+    for idx, first in enumerate(firsts):
+        n = first
+        part = []
+        fe = None
+        while n is not None and n["k"] == "IfStmt":
+            t = cond_tests(f, f.node(n.get("cond")))
+            if t is None:
+                break
+            part.append((t, f.node(n.get("then")), n))
+            e = f.node(n.get("else"))
+            if e is None or e["k"] != "IfStmt":
+                fe = e
+            n = e
+        if idx + 1 < len(firsts):
+            # falling out of this chain must mean "no branch matched": every branch leaves, and there is no final else
+            if fe is not None or not all(leaves(th) for t, th, nn in part):
+                continue        # a nested or unrelated test: not part of the decision list
+        out += part
+        final_else = fe
     return out, final_else
 
 
